@@ -182,6 +182,35 @@ def file_route_stream(listing, doc=None):
         return MasterOfPuppets(cfg).perform_matching()
 
 
+def rewritten_input_results(doc, listing1, listing2):
+    """Match listing1 stored at path P, then REWRITE P in place with listing2 (same length, same mtime) and match again, in this
+    process. -> [(addresses, stream) for the first run, the same for the second run]"""
+    from jasm.global_definitions import InputFileType, MatchConfig, MatchingReturnMode, MatchingSearchMode
+    from jasm.match import MasterOfPuppets
+
+    assert len(listing1) == len(listing2)
+    out = []
+    with scratch() as d:
+        p = os.path.join(d, "rule.yaml")
+        with open(p, "w") as f:
+            yaml.safe_dump(doc, f, sort_keys=False)
+        a = os.path.join(d, "in.s")
+        st = None
+        for text in (listing1, listing2):
+            with open(a, "w") as f:
+                f.write(text)
+            if st is not None:
+                os.utime(a, (st.st_atime, st.st_mtime))
+            st = os.stat(a)
+            res = []
+            for mode in (MatchingReturnMode.matched_addrs_list, MatchingReturnMode.all_instructions_string):
+                cfg = MatchConfig(pattern_pathstr=p, input_file=a, input_file_type=InputFileType.assembly, return_only_address=True,
+                                  return_mode=mode, matching_mode=MatchingSearchMode.all_finds)
+                res.append(MasterOfPuppets(cfg).perform_matching())
+            out.append(tuple(res))
+    return out
+
+
 def decode_stream(s):
     """WF stream text -> [(addr, mnem, [ops])]  (the decoder C10 says exists)"""
     out = []
